@@ -23,7 +23,7 @@ RULE = "E3 sibling agreement + E5 construction terms; E2 arm purity; E4 exit cen
 
 WRAPPERS = ["SecretKey<C>::sign", "SecretKeyShare<C>::sign", "Signature<C>::verify", "PublicKeyShare<C>::verify", "MultiSignature<C>::verify", "AggregateSignature<C>::verify", "Signature<C>::from_shares"]
 DETERMINISTIC = [
-    "SecretKey<C>::from_hash", "SecretKey<C>::public_key", "SecretKey<C>::sign", "SecretKey<C>::proof_of_possession",
+    "SecretKey<C>::from_hash", "SecretKey<C>::public_key", "SecretKey<C>::sign",
     "SecretKey<C>::to_be_bytes", "SecretKey<C>::to_le_bytes", "SecretKeyShare<C>::sign", "SecretKeyShare<C>::public_key",
     "<PublicKey<C> as From<&SecretKey<C>>>::from", "Signature<C>::verify", "SignatureShare<C>::verify", "PublicKeyShare<C>::verify",
     "AggregateSignature<C>::verify", "MultiSignature<C>::verify", "ProofOfPossession<C>::verify", "Signature<C>::from_shares",
@@ -39,13 +39,13 @@ DETERMINISTIC = [
 def run(ctx):
     P = ctx.P
     # 1. sibling agreement + pinned (tag, message) table
-    K.check_core_table(ctx, P)
+    K.check_core_siblings(ctx, P, methods_sign=("sign", "partial_sign"), methods_verify=("verify", "partial_verify", "multi_sig_verify"))
     # 2. wrappers preserve the scheme
     fns = [f for f in (ctx.need_fn("E2-A", k) for k in WRAPPERS) if f is not None]
     n_sites, n_arms = check_arm_purity(ctx, "E2-A", P, fns)
     ctx.floor("E2-A", "scheme dispatch switches in signing/verifying wrappers", n_sites, 7)
     # 3. exit census of the signing path
-    roots = [P.fns.get(k) for k in ("SecretKey<C>::sign", "SecretKey<C>::proof_of_possession")]
+    roots = [P.fns.get(k) for k in ("SecretKey<C>::sign",)]
     reach = reachable_fns(P, [r for r in roots if r])
     nerr = 0
     for f in reach.values():
@@ -82,7 +82,7 @@ def run(ctx):
     # 4. determinism
     F.check_no_effects(ctx, "E7.deterministic", P, DETERMINISTIC, allow_clock=False)
     # 6. secret-key byte import = exact zero rejection
-    F.check_iszero(ctx, P, "E8.iszero", check_asserts=False)
+    F.check_iszero(ctx, P, "E8.iszero", check_asserts=False, need=("nonzero",))
     ctx.assume("pairing bilinearity and correctness of hash-to-curve / scalar multiplication in the backend crates")
 
 
